@@ -162,7 +162,12 @@ class SpecEval:
             if n in ("forall", "exists"):
                 return self.quant(n, node)
         fn = self.ev(node.func)
-        args = [self.ev(a) for a in node.args]
+        args = []
+        for a in node.args:
+            if isinstance(a, ast.Starred):
+                args.extend(list(self.ev(a.value)))
+            else:
+                args.append(self.ev(a))
         kwargs = {k.arg: self.ev(k.value) for k in node.keywords}
         if callable(fn):
             return fn(*args, **kwargs)
